@@ -289,8 +289,8 @@ theorem wf_pitExpire {s : St} (h : WF s) : WF (pitExpire s) := by
   unfold pitExpire
   dsimp only
   split
-  · exact wf_foldl_expireOne _ h
   · exact wf_frame (wf_foldl_expireOne _ h) rfl rfl
+  · exact wf_foldl_expireOne _ h
 
 theorem wf_pitUpdate {s : St} (h : WF s) : WF (pitUpdate s) :=
   wf_frame (wf_pitExpire h) rfl rfl
